@@ -139,7 +139,7 @@ def check_L(part, job):
                 e[k] += 1e-9j
                 e[ylm.idx_c(l, -m)] += 1e-9j * (-1) ** m
                 d = np.abs(sht.analysis(f.astype(np.complex128)) - e).max()
-                if d > 1e-12 * (L + 1):
+                if not (d <= 1e-12 * (L + 1)):
                     fail("analysis-cplx-small-imaginary", "analysis of Y(%d,0) + 1e-9*i*(Y(%d,%d)+cc) deviates by %.3g (the small imaginary part must survive)" % (l, l, m, d), {"l": l, "m": m})
     # ---------------- real transform on basis vectors ------------------------------------------------------
     for k, (l, m) in enumerate(lmr):
@@ -229,6 +229,21 @@ def check_L(part, job):
         if not (abs(np.sum(np.abs(full) ** 2) - integral) <= 1e-8 * max(integral, 1e-30)):
             fail("parseval-real", "sum |c|^2 of the completed vector != integral f^2")
         part.outcome(("dense", which))
+    # ---------------- the poles, at every L: only m = 0 contributes, Y_l0(0) = sqrt((2l+1)/4pi), Y_l0(pi) = (-1)^l sqrt((2l+1)/4pi) ----
+    if L >= 1:
+        part.ev()
+        part.tr(4)
+        a = dense(len(lmc), 0)
+        r = dense(len(lmr), 1)
+        r[: L + 1] = r[: L + 1].real
+        nl = np.sqrt((2 * np.arange(L + 1) + 1) / (4 * np.pi))
+        for th, sgn in ((0.0, np.ones(L + 1)), (np.pi, (-1.0) ** np.arange(L + 1))):
+            want_c = complex(np.sum(np.array([a[ylm.idx_c(l, 0)] for l in range(L + 1)]) * nl * sgn))
+            want_r = float(np.sum(r[: L + 1].real * nl * sgn))
+            vc = complex(sht.evaluate_at_points(a, th, 0.7))
+            vr = complex(sht.evaluate_at_points(r, th, 0.7))
+            if not (abs(vc - want_c) <= t * 20) or not (abs(vr - want_r) <= t * 20):
+                fail("evaluate_at_points:pole", "point-wise evaluation at theta=%s gives %s / %s, the m=0 sum is %s / %s" % ("0" if th == 0 else "pi", vc, vr, want_c, want_r))
     # ---------------- pure python paths and point-wise evaluation --------------------------------------------
     if L <= Lpy or L in (16, 33, 64):
         full_basis = L <= Lpy
@@ -439,8 +454,8 @@ def long_sweep(part, job):
         case = {"kind": "longsweep", "L": L, "npts": npts}
         d1 = np.abs(first - ref).max()
         d2 = np.abs(second - ref).max()
-        if d1 > tol(L) * 50 or d2 > tol(L) * 50:
-            bad = int(np.argmax(np.abs(second - ref) > tol(L) * 50)) if d2 > tol(L) * 50 else int(np.argmax(np.abs(first - ref) > tol(L) * 50))
+        if not (d1 <= tol(L) * 50) or not (d2 <= tol(L) * 50):
+            bad = int(np.argmax(np.abs(second - ref) > tol(L) * 50)) if not (d2 <= tol(L) * 50) else int(np.argmax(np.abs(first - ref) > tol(L) * 50))
             part.fail("long-sweep:%s" % label, "L=%d, %s coefficients: point-wise evaluation of %d distinct points on one object deviates from the harmonics by %.3g in the first pass and %.3g when "
                       "every point is evaluated once more (first bad index %d)" % (L, label, npts, d1, d2, bad), case)
         part.outcome(("longsweep", label))
